@@ -66,6 +66,7 @@ var c02Full = append(append([]string{}, c02Core...),
 	"BenchmarkX 1 1 u 2 v 3 w",
 	"BenchmarkX 1 NaN u -1e-320 v",
 	"BenchmarkX 1 0 ns/op +Inf MB/s -0 ns/op",
+	"BenchmarkX 9223372036854775807 9223372036854775808 u 9999999999999999999 v 203.18687664732286 w",
 	"BenchmarkX\t1\t1\tu\t",
 	"Unit",
 	"Unit u",
@@ -141,9 +142,12 @@ func c02Run(lines []string, canon *mc.Canon, fullCompare bool) (key string, fail
 			text = append(text, l...)
 			text = append(text, '\n')
 		}
+		// Even files carry a tool label that no file key can collide with;
+		// odd files additionally carry the label a=v, which the file lines
+		// "a: v" (restating it exactly), "a: w" and "a:" then take over.
 		labels := []string{".tool", "T"}
 		if fi%2 == 1 {
-			labels = []string{".tool", "U", ".x", "1"}
+			labels = []string{".tool", "U", ".x", "1", "a", "v"}
 		}
 		model.Reset(labels...)
 		// Records produced by lines before the last op of the history were
@@ -321,11 +325,11 @@ var c02Symbols = []string{"Benchmark", "Unit", "a", "K", ":", " ", "\t", "\n", "
 
 func c02RunText(text []byte) string {
 	model := ref.NewFmtModel()
-	model.Reset(".tool", "T")
+	model.Reset(".tool", "T", "a", "1")
 	want := model.Feed(text)
 	var rd0 Reader
 	rd := &rd0
-	rd.Reset(bytes.NewReader(text), "f", ".tool", "T")
+	rd.Reset(bytes.NewReader(text), "f", ".tool", "T", "a", "1")
 	n := 0
 	budget := len(text) + 3
 	for rd.Scan() {
@@ -710,7 +714,7 @@ func TestVerifC02(t *testing.T) {
 	c := mc.NewCheck("C02")
 	c.Assume("format reference model internal/verifref (written from the format documentation)")
 	c.Assume("bufio.Scanner line splitting (stdlib)")
-	c02Space(c, "space-core", c02Core, mc.Pick(c, 30, 40), 0)
+	c02Space(c, "space-core", c02Core, mc.Pick(c, 10, 40), 0)
 	c02Space(c, "space-full", c02Full, mc.Pick(c, 4, 6), mc.Pick(c, 400000, 3000000))
 	c02Strings(c, mc.Pick(c, 5, 6))
 	c02Intern(c)
